@@ -219,6 +219,8 @@ impl Check for C13 {
             intrinsics: rng.bool(),
             indirect_branches: rng.chance(1, 4),
             calls: rng.chance(1, 3),
+            // divisions whose divisor may be a known zero: the analysis must still complete
+            divisions: rng.bool(),
             memory: true,
             expr_depth: 2,
             ..GenOpts::default()
